@@ -1,2 +1,154 @@
--- stub: replaced by the C14 driver
-def main : IO Unit := pure ()
+/-
+  Driver.C14 — runs the HyperLogLog CodeModel (Golib.HLL.Model) on request lines.
+
+    OFF p h1,h2,…         offer the hashed values to a fresh counter of precision p
+                           → <hex GetBytes> <booleans of Offer, as 0/1 string or -> <cardinality> <branch L|R> <zeros> <regSum>
+    MRG p L1|L2|…         counters built from the lists L1, L2, …; L1.Merge(L2, …)
+                           → <hex GetBytes of the merge> <cardinality>
+    BLD <hex>             BuildHyperLogLog → ok <p> <hex GetBytes of the rebuilt counter> <cardinality> | fail
+    IR p h                → <idx> <rank>
+    CLZ x                 → clz32 x
+    SZ count              → getSizeForCount(count)
+    WG w i / WS w i v / WU w i v / WM a b     word-level Get / Set / UpdateIfGreater / merge
+    RS count op;op;…      ops on NewRegisterSet(count): s:pos:val  u:pos:val  g:pos
+                           → <results, comma separated (u → 0/1, g → value, s → ->)> <hex words>
+    LIN m V               linear counting value uint64(Round(m·log(m/V)))   (V > 0)
+    RAW p S               → <small 0/1> <uint64(Round(estimate))> for register sum S/2^31
+
+  The floating-point formulas (the `Est` parameter of the model) are instantiated with Lean's
+  `Float` (IEEE-754 binary64, the C library's `log`).
+-/
+import Golib.HLL.Model
+import Driver.Common
+
+open HLL Drv Prim
+
+def decF (c : Nat × Nat) : Float := Float.ofScientific c.1 true c.2
+
+def alphaMM (p : Nat) : Float :=
+  let m := (2 ^ p).toFloat
+  if p == 4 then decF consts.alpha4 * m * m
+  else if p == 5 then decF consts.alpha5 * m * m
+  else if p == 6 then decF consts.alpha6 * m * m
+  else (decF consts.alphaInf / (1 + decF consts.alphaCorr / m)) * m * m
+
+def roundU (x : Float) : Nat := (x + 0.5).toUInt64.toNat
+
+def estF : Est Float :=
+  { raw := fun p S => alphaMM p * (1.0 / (S.toFloat / 2147483648.0))
+    small := fun e m => e <= (decF consts.thresholdNum / decF consts.thresholdDen) * m.toFloat
+    linear := fun m V => roundU (m.toFloat * Float.log (m.toFloat / V.toFloat))
+    round := roundU }
+
+def natList (s : String) : Option (List Nat) := parseList parseNat s
+
+def boolStr (bs : List Bool) : String :=
+  if bs.isEmpty then "-" else String.ofList (bs.map (fun b => if b then '1' else '0'))
+
+def cardLine (p : Nat) (ws : Array Nat) : String :=
+  let rs := regs p ws
+  let br := match cardBranch estF p rs with
+    | .linear _ _ => "L"
+    | .raw _ => "R"
+  s!"{cardinality estF p ws} {br} {zeros rs} {regSum rs}"
+
+def okP (p : Nat) : Bool := 1 ≤ p && p ≤ 24
+
+def rsOps (ws : Array Nat) : List String → List String → Option (Array Nat × List String)
+  | [], acc => some (ws, acc.reverse)
+  | o :: rest, acc =>
+    match o.splitOn ":" with
+    | ["s", a, b] =>
+      match parseNat a, parseNat b with
+      | some r, some v => rsOps (regSet ws r v) rest ("-" :: acc)
+      | _, _ => none
+    | ["u", a, b] =>
+      match parseNat a, parseNat b with
+      | some r, some v =>
+        let u := regUpd ws r v
+        rsOps u.1 rest ((if u.2 then "1" else "0") :: acc)
+      | _, _ => none
+    | ["g", a] =>
+      match parseNat a with
+      | some r => rsOps ws rest (toString (regGet ws r) :: acc)
+      | none => none
+    | _ => none
+
+def wordsHex (ws : Array Nat) : String := hexOf (encMany (beN 4) ws.toList)
+
+def answer (line : String) : String :=
+  match line.splitOn " " with
+  | ["OFF", p, hs] =>
+    match parseNat p, natList hs with
+    | some p, some hs =>
+      if !okP p then "bad-op" else
+      let r := offerAllB p (fresh p) hs
+      s!"{hexOf (getBytes p r.1)} {boolStr r.2} {cardLine p r.1}"
+    | _, _ => "bad-op"
+  | ["MRG", p, parts] =>
+    match parseNat p, (parts.splitOn "|").mapM natList with
+    | some p, some (l :: ls) =>
+      if !okP p then "bad-op" else
+      let m := mergeAll p (stateOf p l) (ls.map (stateOf p))
+      s!"{hexOf (getBytes p m)} {cardinality estF p m}"
+    | _, _ => "bad-op"
+  | ["BLD", hex] =>
+    match ofHex hex with
+    | some bs =>
+      match P.run build bs with
+      | some ((p, ws), _) =>
+        if okP p && 2 ^ p ≤ 6 * ws.size then s!"ok {p} {hexOf (getBytes p ws)} {cardinality estF p ws}"
+        else s!"ok {p} {hexOf (getBytes p ws)} -"
+      | none => "fail"
+    | none => "bad-op"
+  | ["IR", p, h] =>
+    match parseNat p, parseNat h with
+    | some p, some h => s!"{idx p h} {rank p h}"
+    | _, _ => "bad-op"
+  | ["CLZ", x] =>
+    match parseNat x with
+    | some x => s!"{clz32 x}"
+    | none => "bad-op"
+  | ["SZ", c] =>
+    match parseNat c with
+    | some c => s!"{wordCount c}"
+    | none => "bad-op"
+  | ["WG", w, i] =>
+    match parseNat w, parseNat i with
+    | some w, some i => s!"{wordGet w i}"
+    | _, _ => "bad-op"
+  | ["WS", w, i, v] =>
+    match parseNat w, parseNat i, parseNat v with
+    | some w, some i, some v => s!"{wordSet w i v}"
+    | _, _, _ => "bad-op"
+  | ["WU", w, i, v] =>
+    match parseNat w, parseNat i, parseNat v with
+    | some w, some i, some v =>
+      let u := wordUpd w i v
+      s!"{u.1} {if u.2 then 1 else 0}"
+    | _, _, _ => "bad-op"
+  | ["WM", a, b] =>
+    match parseNat a, parseNat b with
+    | some a, some b => s!"{mergeWord a b}"
+    | _, _ => "bad-op"
+  | ["RS", c, ops] =>
+    match parseNat c with
+    | some c =>
+      let ws := Array.replicate (wordCount c) 0
+      match rsOps ws (if ops == "-" then [] else ops.splitOn ";") [] with
+      | some (ws, res) => s!"{listOf id res} {wordsHex ws}"
+      | none => "bad-op"
+    | none => "bad-op"
+  | ["LIN", m, v] =>
+    match parseNat m, parseNat v with
+    | some m, some v => if v == 0 then "inf" else s!"{estF.linear m v}"
+    | _, _ => "bad-op"
+  | ["RAW", p, s] =>
+    match parseNat p, parseNat s with
+    | some p, some s =>
+      let e := estF.raw p s
+      s!"{if estF.small e (2 ^ p) then 1 else 0} {estF.round e}"
+    | _, _ => "bad-op"
+  | _ => "bad-op"
+
+def main : IO Unit := statelessLoop answer
